@@ -578,6 +578,9 @@ func (a *FuncAn) condFacts(s *State, cond ssa.Value, truth bool) {
 			nf = []Lin{Add(x, y, -1), Add(y, x, -1)}
 		case token.NEQ:
 			s.AddNeq(Add(x, y, -1))
+			if y.IsConst() && y.C == 0 {
+				defer a.strideIntLemma(s, c.X)
+			}
 		}
 		if len(nf) > 0 {
 			// infeasible edge: the current facts refute the condition
